@@ -92,10 +92,10 @@ def eval_violations(run, ck, verdicts, recs, topic):
         run.violations.append({"key": key, "what": what, "replay": path})
 
 
-def eval_stage(run, ck, topic, n_quick, n_thorough, parts=8, extra=None):
+def eval_stage(run, ck, topic, n_quick, n_thorough, parts=8, extra=None, env=None):
     out = os.path.join(run.work, topic + ".ndjson")
     run.drive(topic, n_thorough if run.thorough else n_quick, out, extra=extra)
-    verdicts, recs = run.validate(out, "Trace_Eval", parts=parts, label=topic)
+    verdicts, recs = run.validate(out, "Trace_Eval", parts=parts, label=topic, env=env)
     eval_violations(run, ck, verdicts, recs, topic)
 
 
@@ -247,4 +247,19 @@ def c13(run, ck):
                 assumptions=["doubles with more than 40 digits or exponents beyond +-400 are outside the modelled fragment (unknown)"])
 
 
-PIPELINES = {"C13": c13, "C02": c02, "C18": c18, "C12": c12, "C10": c10, "C09": c09, "C03": c03, "C04": c04, "C05": c05, "C06": c06, "C07": c07, "C08": c08}
+def c01(run, ck):
+    eval_stage(run, ck, "total", 100, 100, env={"ONLYCRASH": "1"})
+    out = os.path.join(run.work, "fuzz.ndjson")
+    run.drive("fuzz", 40000 if run.thorough else 2500, out)
+    verdicts, recs = run.validate(out, "Trace_Parse", cfg="Trace_Parse.cfg", parts=8, label="fuzz")
+    simple_violations(run, ck, verdicts, recs, "fuzz", describe=lambda rec, v: parse_shape(rec))
+    out = os.path.join(run.work, "ladder.ndjson")
+    run.drive("ladder", 1, out)
+    verdicts, recs = run.validate(out, "Trace_Total", cfg="Trace_Total.cfg", parts=1, label="ladder")
+    simple_violations(run, ck, verdicts, recs, "ladder", describe=lambda rec, v: "%s|depth=%s|thread=%s" % (rec.get("shape"), rec.get("depth"), rec.get("thread")))
+    return dict(rule="every built-in function, macro and type constructor x argument tuples from the boundary pool (arity <= 1 exhaustive with and without receiver, arity 2 exhaustive in the thorough tier, 3-4 sampled), "
+                     "every operator x pool^2, each as bound values and as literals (compile-time evaluation); grammar-derived, token-mutated, token-soup and random UTF-8 sources; nesting ladders of 17 shapes in child processes on an 8 MB and a 2 MB stack",
+                assumptions=["stack exhaustion is observed per build profile and stack size of this machine", "the harness is built with opt-level 1"])
+
+
+PIPELINES = {"C01": c01, "C13": c13, "C02": c02, "C18": c18, "C12": c12, "C10": c10, "C09": c09, "C03": c03, "C04": c04, "C05": c05, "C06": c06, "C07": c07, "C08": c08}
